@@ -49,5 +49,14 @@ CLAIMS['C08'] = dict(
     note='floats as reals; jv/sqrt/log uninterpreted; Lean lemma recompiled in the thorough tier (quick: hash of last compiled text); '
          'limit sigma -> infinity not decided',
     design_ref='DESIGN.md §5 C08, Appendix A')
+CLAIMS['C16'] = dict(
+    text='Proof (per axis, unbounded in the count): Angle.angle_deg returns exactly `number` angles initial + i*inc; the grid slice '
+         'of compute_near_field builds, per axis, exactly n points start + j*increment (z, y, x order of the list); the field loop '
+         'appends exactly one E and one H vector per grid point. Point order and far-field row order rest on numpy index axioms that '
+         'are cross-checked natively; a sweep over every count 1..100 is the bounded stand-in.',
+    note='float arithmetic read over the reals (the fixed code builds the axis from an integer range, so the float64 length problem of '
+         'np.arange(a, b, c) does not arise; the np.arange(a,b,c) model used for mutants reads the length over the reals too); '
+         'meshgrid/flatten/flip/.flat index arithmetic trusted + natively cross-checked',
+    design_ref='DESIGN.md §5 C16')
 for _p in CLAIMS:
     NOT_APPLICABLE.pop(_p, None)
